@@ -52,10 +52,26 @@ def run_property(prop, tier, seed, jobs, only=None):
         cons = [c for c in cons if not getattr(c, 'thorough_only', False)]
     payloads = [(None, c.name, tier, seed, known) for c in cons]
     results = []
+    hung = []
     if payloads:
         ctx = mp.get_context('fork')
-        with ctx.Pool(min(jobs, len(payloads))) as pool:
-            results = pool.map(D.verify_task, payloads, chunksize=1)
+        # one task per contract; a worker that does not come back (the changed code under test loops natively during a
+        # replay, or exhausts the memory cap) leaves its contract undecided - the check itself always terminates
+        deadline = float(os.environ.get('VERIF_CONTRACT_TIMEOUT', 1800 if tier == 'quick' else 7200))
+        pool = ctx.Pool(min(jobs, len(payloads)), initializer=D._cap_memory, maxtasksperchild=None)
+        try:
+            asyncs = [(p, pool.apply_async(D.verify_task, (p,))) for p in payloads]
+            t_end = time.time() + deadline
+            for p, a in asyncs:
+                try:
+                    results.append(a.get(timeout=max(1.0, t_end - time.time())))
+                except mp.TimeoutError:
+                    hung.append((p[1], 'worker did not finish within %g s' % deadline))
+                except Exception as ex:
+                    hung.append((p[1], 'worker failed: %r' % (ex,)))
+        finally:
+            pool.terminate()
+            pool.join()
     tables, bounded = [], []
     for m in mods:
         tables.extend(D.run_tables(m, prop))
@@ -82,6 +98,8 @@ def run_property(prop, tier, seed, jobs, only=None):
     by_solver = {}
     proof_broken = []
     n_kf_obl = 0
+    for cname, why in hung:
+        undecided.append(dict(name=cname, reason=why))
     for r in results:
         errors.extend(r['errors'])
         fatal = r.get('fatal')
